@@ -11,8 +11,8 @@
     [n_unknown] = number of sub-periods of [T] without a value; [share] = remainder / n_unknown;
     [cast] is the conversion to the variable's dtype (identity for float - binary32 rounding
     is not modelled - truncation toward zero for int). *)
-From Coq Require Import ZArith QArith List Bool.
-From Verif Require Import Base Cal Tables Period SetInput SetInputProofs.
+From Coq Require Import ZArith QArith List Bool Lia.
+From Verif Require Import Base Cal Tables Period PeriodSpec SetInput SetInputProofs SetInputCalProofs.
 Import ListNotations.
 Open Scope Z_scope.
 
@@ -133,6 +133,58 @@ Theorem sum_tiles_is_entitywise_sum :
 Proof. exact sum_tiles_ent. Qed.
 Print Assumptions sum_tiles_is_entitywise_sum.
 
+(** * Instantiation with the calendar (uses C04's tiling theorem)
+
+    [wf P]: dated unit, valid start, size >= 1; [same_family]: day < month < year or
+    weekday < week; [aligned]: the start is the first day of the definition unit
+    (model/PeriodSpec.v).  Under these hypotheses - "the definition period tiles the long period
+    exactly" - the helpers walk over exactly [Period.get_subperiods(definition_period)]. *)
+Theorem walk_visits_subperiods :
+  forall (v : var) (P : period),
+  wf P -> same_family (p_unit P) (v_def v) = true -> aligned (v_def v) (p_start P) ->
+  exists T, subperiods P (v_def v) = Ok T /\ walk_tiles v P = Ok T.
+Proof. exact walk_eq_subperiods. Qed.
+Print Assumptions walk_visits_subperiods.
+
+(** ... hence setting an amount for the long period and then summing the variable over that same
+    period returns the amount (cast to the dtype), per entity, after any history: when something
+    was left to fill (and the share is representable in the dtype), and when everything was known
+    and the amount is consistent. *)
+Theorem divide_then_calculate_add :
+  forall (v : var) (n : Z) (steps : list (period * arr)) (P : period) (a : arr),
+  v_rule v = RDivide -> not_after_end v P ->
+  wf P -> same_family (p_unit P) (v_def v) = true -> aligned (v_def v) (p_start P) ->
+  Z.of_nat (length a) = n ->
+  let h := run_steps v n [] steps in
+  let a' := map (cast (v_type v)) a in
+  exists T, subperiods P (v_def v) = Ok T /\ walk_tiles v P = Ok T
+    /\ (0 < n_unknown v h T ->
+          exists h' s, sim_set_input v n h P a = Ok h' /\ calculate_add v n h' P = Ok s
+            /\ forall i, (i < length a)%nat ->
+                 (cast (v_type v) (share v n h T a' i) == share v n h T a' i)%Q ->
+                 (ent i s == ent i a')%Q)
+    /\ (n_unknown v h T = 0 ->
+          (forall i, (i < length a)%nat -> (remainder v n h T a' i == 0)%Q) ->
+          exists s, sim_set_input v n h P a = Ok h /\ calculate_add v n h P = Ok s
+            /\ forall i, (i < length a)%nat -> (ent i s == ent i a')%Q).
+Proof. exact divide_then_calculate_add_proof. Qed.
+Print Assumptions divide_then_calculate_add.
+
+(** Dispatch rule on a long period tiled exactly: every sub-period of [get_subperiods] that had
+    no value receives the value, the others keep theirs. *)
+Theorem dispatch_on_subperiods :
+  forall (v : var) (n : Z) (steps : list (period * arr)) (P : period) (a : arr),
+  v_rule v = RDispatch -> not_after_end v P ->
+  wf P -> same_family (p_unit P) (v_def v) = true -> aligned (v_def v) (p_start P) ->
+  Z.of_nat (length a) = n ->
+  let h := run_steps v n [] steps in
+  exists T h', subperiods P (v_def v) = Ok T /\ sim_set_input v n h P a = Ok h'
+    /\ (forall q x, get h q = Some x -> get h' q = Some x)
+    /\ (forall q, ~ In q T -> get h' q = get h q)
+    /\ (forall t, In t T -> get h t = None -> get h' t = Some (map (cast (v_type v)) a)).
+Proof. exact dispatch_on_subperiods_proof. Qed.
+Print Assumptions dispatch_on_subperiods.
+
 (** * Non-vacuity: the hypotheses are satisfiable and the branches are taken *)
 
 (** March = (5, 1/2) is known; 2019 := (27, 6) gives the 11 other months (2, 1/2) each,
@@ -204,3 +256,15 @@ Example order_effect_nonvacuous :
   holds (Ok h1) (ex_m 8) [1 # 1] = true /\ holds (Ok h1) (Month, (2020, 2, 1), 1) [4 # 1] = true
   /\ holds (Ok h2) (ex_m 8) [5 # 2] = true /\ holds (Ok h2) (ex_m 2) [-1 # 2] = true.
 Proof. repeat split; vm_compute; reflexivity. Qed.
+
+(** The calendar hypotheses hold for a calendar year, a rolling year and a leap February. *)
+Example calendar_hypotheses_nonvacuous :
+  (wf ex_2019 /\ same_family (p_unit ex_2019) Month = true /\ aligned Month (p_start ex_2019))
+  /\ (let roll : period := (Year, (2019, 7, 1), 2) in
+      wf roll /\ same_family (p_unit roll) Month = true /\ aligned Month (p_start roll))
+  /\ (let feb : period := (Month, (2020, 2, 1), 1) in
+      wf feb /\ same_family (p_unit feb) Day = true /\ aligned Day (p_start feb)
+      /\ rmap (@length period) (walk_tiles (mkVar VFloat Day RDivide None) feb) = Ok 29%nat).
+Proof.
+  unfold wf, valid. repeat split; try discriminate; try reflexivity; cbn; lia.
+Qed.
